@@ -28,7 +28,8 @@ func init() {
 		Rule: "(a) no panic: every byte string <=4 (thorough 5) over B, every fragment sequence <=2 (thorough 3) over F, every sequence of 3-4 tokens over a 23-token token-loop alphabet (one token of every class the loop's bookkeeping distinguishes), and every sequence <=2 over the attribute / URL (<=3) / style-declaration alphabets of the other checks in their contexts, through all four entry points (the streaming one into a bytes.Buffer and into a destination without WriteString), against four policies: an 'everything on' policy (every default CSS handler globally, a rewriter that dereferences its argument, data URIs, data attributes, element patterns, every link / crossorigin / sandbox option), the same with URL parsing switched off again, a rewriter-only policy, and UGC; data: URIs of <=3 fragments in img.src as well; for every default CSS handler every prefix / suffix of every accepted token and every prefix of every function-notation token after an accepted beginning (no panic, within the step budget); " +
 			"(b) promptness by step-bounded execution: the overlay counts one step per statement of package bluemonday and per function entry / loop iteration of package css; for every default CSS handler x up to 12 tokens of its own vocabulary x separator {' ', ',', '/', ' / '} x terminator {none, a rejected token} x size n in {1,2,4,8,16,24,32,48}: handler(n-fold value) must finish within K*(len+16)^3 steps; " +
 			"likewise 22 size-parameterised HTML families through Sanitize (nested dropped / skipped / attribute-less elements, n attributes, n rel tokens, n style declarations, n CSS escapes, n-token shorthand values for 14 shorthand properties, n data- prefixes, n bare < and &, ...) for n up to 256. Exceeding the budget aborts the call (sentinel panic) and is the violation; sizes are visited in increasing order. No wall-clock oracle. " +
-			"non-trivial = distinct (family, size) executions with n >= 4.",
+			"non-trivial = distinct (family, size) executions with n >= 4." +
+			" Every style value of <=4 (thorough 5) bytes over the 16 bytes the style scanner's branches distinguish, as value and as property name.",
 		Assumptions: []string{
 			"work inside regexp, douceur and x/net/html (linear by construction) is not counted",
 			"polynomial growth is established for the listed sizes under a cubic budget, not proved asymptotically",
